@@ -3,7 +3,7 @@
     position and the positions it links to; [analyse_closure] is the set of positions reached from the
     declarations of the source file (the memo table of handleType, keyed structurally). *)
 From Coq Require Import List String ZArith Bool.
-From GM Require Import Base.Result Facts.GoFacts Facts.Ana Model.Enums Model.Unions Model.Classify Proofs.C12.
+From GM Require Import Base.Result Facts.GoFacts Facts.Ana Model.Enums Model.Unions Model.Classify Proofs.C12 Proofs.C12t.
 Import ListNotations.
 Local Open Scope string_scope.
 
@@ -29,6 +29,23 @@ Theorem C12_faithful : forall pr enums unions t sh,
   classify pr enums unions t = Ok sh -> faithful_shape pr enums unions t sh.
 Proof. exact classify_faithful. Qed.
 
+(** Finite: the analysis of any program terminates. Every position the worklist ever holds belongs to
+    the finite [universe] of the program (the structural components of the declared types, of their
+    underlying and field types, and of the union members) and each is expanded at most once, so that the
+    worklist needs at most [closure_bound] steps: with more fuel than that it never reports unbounded
+    recursion, whatever the declarations (self- and mutually recursive ones included). The correspondence
+    check runs the model with exactly that fuel (Corr/Check_C12.v:fuel_for). *)
+Theorem C12_terminates : forall pr enums unions source fuel,
+  incl source (universe pr enums unions) ->
+  closure_bound pr enums unions source < fuel ->
+  forall msg, analyse_closure pr enums unions source fuel <> Crash msg.
+Proof. exact analysis_terminates. Qed.
+
+(** every declared name is in the universe: any list of declared types is an admissible source *)
+Theorem C12_declared_types_are_admissible_sources : forall pr enums unions d,
+  In d (pr_types pr) -> In (GNamed (n_id d)) (universe pr enums unions).
+Proof. exact declared_in_universe. Qed.
+
 (** Non-vacuity: a self-recursive struct through a slice has a finite closure. *)
 Example C12_example :
   let tree := {| n_id := "p.Tree"; n_pkg := "p"; n_pkg_name := "p"; n_name := "Tree"; n_targs := [];
@@ -44,3 +61,5 @@ Proof. vm_compute. reflexivity. Qed.
 Print Assumptions C12_closed.
 Print Assumptions C12_once.
 Print Assumptions C12_faithful.
+Print Assumptions C12_terminates.
+Print Assumptions C12_declared_types_are_admissible_sources.
